@@ -117,7 +117,25 @@ def run(model: RepoModel, rep, tier: str):
                           f"rule field `{fld}` is never used to reject a rule (neither filter_rule_by_unit_info nor check_rules tests it with a "
                           f"`continue`): a rule restricted by `{fld}` selects methods it was meant to exclude")
     # the comparison itself: equality / membership against the unit / scope, not a constant
-    for fld, expect in (("lang", "unit_info.lang"), ("unit_name", "unit_name"), ("unit_path", "unit_info.unit_path"),
+    # the unit's *file name* is the basename of its path (a local computed in the unit filter)
+    base_locals = {n.targets[0].id for n in walk_no_nested(unit_filter.node) if isinstance(n, ast.Assign) and isinstance(n.targets[0], ast.Name)
+                   and isinstance(n.value, ast.Call) and call_name(n.value) == "os.path.basename"}
+    key = f"{EP}::EntryPointRule.unit_name::compared with the file name"
+    ifs = uf.get("unit_name", [])
+    ok = False
+    for i in ifs:
+        for x in ast.walk(i.test):
+            if isinstance(x, ast.Name) and x.id in base_locals:
+                ok = True
+            if isinstance(x, ast.Call) and call_name(x) == "os.path.basename":
+                ok = True
+    if ok:
+        rep.holds("C20.R1", key, EP, ifs[0].lineno, "`rule.unit_name` is tested against os.path.basename(unit path)")
+    elif ifs:
+        rep.violation("C20.R1", key, EP, ifs[0].lineno,
+                      f"the unit_name restriction is tested with `{norm(ifs[0].test)}`, not against the file name (basename of the unit path): "
+                      f"a rule restricted to file X also selects files that merely sit in a directory whose path contains X")
+    for fld, expect in (("lang", "unit_info.lang"), ("unit_path", "unit_info.unit_path"),
                         ("unit_id", "unit_info.module_id"), ("method_list", "name"), ("method_id", "scope.stmt_id")):
         ifs = uf.get(fld, []) + mf.get(fld, [])
         key = f"{EP}::EntryPointRule.{fld}::compared with {expect}"
@@ -266,6 +284,27 @@ def run(model: RepoModel, rep, tier: str):
         rep.violation("C20.R3", key, "core/global_semantics.py", runf.node.lineno, "; ".join(probs))
     else:
         rep.holds("C20.R3", key, "core/global_semantics.py", loops[0].lineno, "for entry_point in self.loader.get_entry_points(): init_frame_stack(entry_point, ...)")
+    # per-entry analysis state: everything init_frame_stack hands to the entry frame from `self` is re-created for each entry
+    ifs_f = p3.methods.get("init_frame_stack")
+    if loops and ifs_f is not None:
+        lp = loops[0]
+        shared = []
+        for n in walk_no_nested(ifs_f.node):
+            if isinstance(n, ast.Call) and (call_name(n) or "").endswith("ComputeFrame"):
+                for k in n.keywords:
+                    if is_self_attr(k.value) and k.value.attr not in ("loader", "options", "lian", "resolver", "event_manager", "path_manager"):
+                        shared.append(k.value.attr)
+        for attr in sorted(set(shared)):
+            key = f"core/global_semantics.py::{p3.name}.run::self.{attr} is fresh for every entry point"
+            fresh = [n for n in ast.walk(lp) if isinstance(n, ast.Assign) and any(is_self_attr(t, attr) for t in n.targets)]
+            init_call = [n for n in ast.walk(lp) if isinstance(n, ast.Call) and isinstance(n.func, ast.Attribute) and n.func.attr == "init_frame_stack"]
+            if fresh and init_call and fresh[0].lineno < init_call[0].lineno:
+                rep.holds("C20.R3", key, "core/global_semantics.py", fresh[0].lineno, f"self.{attr} = {norm(fresh[0].value)} inside the entry loop, before the entry frame is built")
+            else:
+                rep.violation("C20.R3", key, "core/global_semantics.py", lp.lineno,
+                              f"init_frame_stack hands self.{attr} to every entry frame, but run() does not re-create it per entry point: the "
+                              f"budget/state used up while analysing earlier entries cuts the analysis of later ones short, so code reachable "
+                              f"from a selected entry is not analysed under it")
     # taint: graphs only by entry point
     tm = model.module("taint/taint_analysis.py")
     ta = tm.classes.get("TaintAnalysis")
@@ -395,6 +434,13 @@ MUTANTS = [
     ("lang-compared-to-constant", EP, _m("expr", "EntryPointGenerator", "filter_rule_by_unit_info",
                                          lambda e: isinstance(e, ast.Attribute) and dotted(e) == "unit_info.lang", "config.ANY_LANG"),
      "EntryPointRule.lang::compared"),
+    ("unit-name-substring-of-path", EP, _m("expr", "EntryPointGenerator", "filter_rule_by_unit_info",
+                                           lambda e: isinstance(e, ast.Compare) and "rule.unit_name" in norm(e), "rule.unit_name not in unit_info.unit_path"),
+     "unit_name::compared with the file name"),
+    ("counter-not-reset-per-entry", "core/global_semantics.py",
+     lambda src: __import__("sa.mutate", fromlist=["x"]).delete_stmt_where(
+         src, "P3GlobalSemanticAnalysis", "run", lambda st: isinstance(st, ast.Assign) and any(is_self_attr(t, "call_site_analyze_counter") for t in st.targets)),
+     "call_site_analyze_counter is fresh"),
     ("p3-all-methods", "core/global_semantics.py",
      lambda src: __import__("sa.mutate", fromlist=["x"]).text_replace(src, "for entry_point in self.loader.get_entry_points():", "for entry_point in self.loader.get_all_method_ids():"),
      "starts from the saved entry points"),
